@@ -2,6 +2,12 @@ package rules
 
 import (
 	"fmt"
+	"os"
+	"go/constant"
+	"go/token"
+	"go/types"
+	"sort"
+	"strings"
 
 	"golang.org/x/tools/go/ssa"
 
@@ -13,37 +19,1724 @@ func init() {
 		Property:  "C03",
 		Title:     "Decoding arbitrary bytes never panics, crashes or over-allocates",
 		Run:       runC03,
-		Technique: "obligation census (index/slice/assert/alloc/recursion sites on the decode+inspect call graph) discharged by the Go compiler's prove pass as oracle plus dominance/non-negativity/taint rules",
-		Explanation: "TBD",
-		Rules:       map[string]string{"O1": "bounds"},
-		MinInstances: map[string]int{},
+		Technique: "obligation census on the decode+inspect call graph (bounds, type assertions, allocations, unsigned subtraction, recursion) discharged by the Go compiler's prove pass as oracle plus dominance / non-negativity / wire-taint / call-graph-cycle rules",
+		Explanation: "Decides on the current source, for every library function reachable from the decode entry points (ReadMessage, DecodeAVP, DecodeHeader, DecodeGrouped, DecodeFromBytes, datatype.Decode and every Decoder entry) and the inspection API (String, PrettyDump, Serialize*, Len, Unmarshal, FindAVP*, WriteTo*, all methods of datatype.Type implementors): " +
+			"O1 every bounds check the Go compiler's prove pass could NOT eliminate (go build -gcflags=-d=ssa/check_bce/debug=1; sites it proved are discharged by the compiler) is discharged by a generic rule — constant bounds under a dominating len guard (G5), x[:f] under a len(x) ≥ f guard on the same field load with f non-negative (G2), cursor loops b[n:] under n < len(b) with a non-negative cursor (G1), buffers extended by the count a full read returned (Gread), bytes.Buffer invariants (G4), pooled header scratch (G7), non-empty results/arguments (G8/G9), writes into buffers allocated with Len() at every library call site (S) — or by a reviewed exemption naming the function and operand; anything else is a violation; " +
+			"O2 every type assertion without comma-ok is dominated by a Type()==K test on the same value with K's only implementor being the asserted type (or is a homogeneous pool / registered-decoder result); " +
+			"O3 every allocation in a decode function whose size derives from wire data is bounded by a constant or by data already received (min idiom), and every unsigned subtraction of wire lengths is dominated by a guard excluding wrap-around; " +
+			"O4 every call-graph cycle among decode functions carries an integer depth parameter that is compared with a constant (error return) and passed on increased; cycles among inspection functions recurse only into children of the current AVP. " +
+			"Not decided: panics inside reflect for arbitrary struct types, nil dereferences beyond (value,error) contracts, quantitative memory beyond 'no allocation sized by an unchecked wire value', actual stack sizes.",
+		Rules: map[string]string{
+			"O1":  "no undischarged bounds-check site (compiler residue) on the decode+inspect graph",
+			"O2":  "no unguarded type assertion on the decode+inspect graph",
+			"O3":  "no allocation sized by an unchecked wire value in decode functions",
+			"O3b": "no unguarded unsigned subtraction of wire lengths",
+			"O4":  "no unbounded recursion on wire data",
+		},
+		MinInstances: map[string]int{"O1": 10, "O2": 5, "O3": 2, "O3b": 1, "O4": 2},
+		Assumptions: []string{"the Go compiler's prove pass is sound (bounds checks it removes cannot fail)",
+			"bytes.Buffer, io.ReadFull/ReadAtLeast, io.Writer contracts (counts within the buffer passed)",
+			"lengths stay below 2^31 (uint32→int conversions are value preserving)",
+			"MessageBufferLength ≥ HeaderLength (package variable; applications that lower it below 20 are outside the property)",
+			"values built by user code that are invalid for their type (a 1-byte Address, a struct tag `avp:\"`) are outside the property's quantifier"},
 	})
+}
+
+// c03Exemptions: reviewed residue sites that no generic rule covers. Key: function name + operand shape.
+var c03Exemptions = map[string]string{
+	"(diam/datatype.Address).String|slice[2:]": "reached only when the address is neither 4 nor 16 bytes; decoded addresses of other families keep their 2-byte family prefix and DecodeAddress rejects inputs shorter than 3 bytes",
+	"(diam/datatype.Address).String|slice[:2]": "same guard as above",
+	"diam.dataValueToString|slice[2:]":         "Address branch of the pretty printer: same invariant as Address.String (decoded non-IP addresses have length ≥ 3)",
+	"diam.dataValueToString|slice[:2]":         "same",
+	"diam.parseAvpTag|slice":                   "operates on struct tags, which are compile-time constants of the calling program, not on wire data",
+}
+
+type c03 struct {
+	c        *Ctx
+	nn       *nonNeg
+	scope    map[*ssa.Function]bool
+	decode   map[*ssa.Function]bool
+	serial   map[*ssa.Function]*ssa.Parameter // serializer function -> its output buffer parameter
+	serialOK map[*ssa.Function]string
 }
 
 func runC03(c *Ctx) {
 	r := c.R
-	scope, _, _ := c.c03Scope()
-	sites, err := compilerResidue(c.P)
-	if err != nil {
-		r.Undecided("O1", "compiler-residue", "-", err.Error())
+	x := &c03{c: c, nn: c.newNonNeg()}
+	var entries []string
+	x.scope, x.decode, entries = c.c03Scope()
+	r.Role("Entries", fmt.Sprintf("%d entry points", len(entries)))
+	r.Role("Scope", fmt.Sprintf("%d library functions (decode path: %d)", len(x.scope), len(x.decode)))
+	if len(x.scope) < 50 {
+		r.Undecided("O1", "role:scope", "-", "decode/inspect scope unexpectedly small")
 		return
 	}
+	x.findSerializers()
+	x.bounds()
+	x.asserts()
+	x.allocs()
+	x.recursion()
+}
+
+// ---------- O1 ----------
+
+func (x *c03) findSerializers() {
+	c := x.c
+	x.serial = map[*ssa.Function]*ssa.Parameter{}
+	x.serialOK = map[*ssa.Function]string{}
+	// serializer: method named SerializeTo-like by role: has a []byte parameter that is written
+	// (IndexAddr store / PutUint / copy destination) and never read.
+	for f := range x.scope {
+		for _, p := range f.Params {
+			if !isByteSlice(p.Type()) {
+				continue
+			}
+			writes, reads := 0, 0
+			var visit func(v ssa.Value, depth int)
+			visit = func(v ssa.Value, depth int) {
+				if depth > 4 {
+					return
+				}
+				for _, ref := range flow.Referrers(v) {
+					switch u := ref.(type) {
+					case *ssa.Slice:
+						visit(u, depth+1)
+					case *ssa.IndexAddr:
+						for _, r2 := range flow.Referrers(u) {
+							switch r2.(type) {
+							case *ssa.Store:
+								writes++
+							case *ssa.UnOp:
+								reads++
+							}
+						}
+					case *ssa.Phi:
+						visit(u, depth+1)
+					case ssa.CallInstruction:
+						com := u.Common()
+						if b, ok := com.Value.(*ssa.Builtin); ok {
+							switch b.Name() {
+							case "copy":
+								if com.Args[0] == v {
+									writes++
+								} else {
+									reads++
+								}
+							case "len", "cap":
+							default:
+								reads++
+							}
+							continue
+						}
+						if o := flow.CalleeObj(u); o != nil && o.Pkg() != nil && o.Pkg().Path() == "encoding/binary" && strings.HasPrefix(o.Name(), "PutUint") {
+							writes++
+							continue
+						}
+						if g := flow.StaticCallee(u); g != nil && x.scope[g] {
+							// passing on to another serializer counts as write (checked there)
+							writes++
+							continue
+						}
+						reads++
+					}
+				}
+			}
+			visit(p, 0)
+			if writes > 0 && reads == 0 {
+				x.serial[f] = p
+			}
+		}
+	}
+	// classify every library call site's buffer argument
+	for f, p := range x.serial {
+		idx := paramIndex(f, p)
+		bad := ""
+		nSites := 0
+		for _, caller := range c.P.LibraryFuncs() {
+			for _, ci := range flow.CallInstrs(caller) {
+				if flow.StaticCallee(ci) != f || idx >= len(ci.Common().Args) {
+					continue
+				}
+				nSites++
+				if why := x.bufferFits(caller, ci, ci.Common().Args[idx], f); why != "" {
+					bad = fmt.Sprintf("%s at %s", why, c.pos(ci))
+				}
+			}
+		}
+		if bad != "" {
+			x.serialOK[f] = "!" + bad
+		} else {
+			x.serialOK[f] = fmt.Sprintf("%d library call sites pass a buffer sized with the serialised length", nSites)
+		}
+	}
+}
+
+// bufferFits: the buffer handed to serializer g at this call site is sized for it. Returns "" or why not.
+func (x *c03) bufferFits(caller *ssa.Function, ci ssa.CallInstruction, buf ssa.Value, g *ssa.Function) string {
+	lenCallOn := func(v ssa.Value, recv ssa.Value) bool {
+		call, ok := flow.Peel(v).(*ssa.Call)
+		if !ok {
+			return false
+		}
+		o := flow.CalleeObj(call)
+		if o == nil || o.Name() != "Len" || len(call.Call.Args) == 0 {
+			return false
+		}
+		return sameVal(call.Call.Args[0], recv) || samePath(call.Call.Args[0], recv)
+	}
+	recv := ci.Common().Args[0]
+	switch b := buf.(type) {
+	case *ssa.MakeSlice:
+		if lenCallOn(b.Len, recv) {
+			return ""
+		}
+		if k, ok := flow.ConstInt(b.Len); ok && g.Name() == "SerializeTo" && k == 20 {
+			return ""
+		}
+		return "buffer is make() of something other than the receiver's Len()"
+	case *ssa.Slice:
+		// b[0:l] with l = recv.Len()
+		if b.High != nil && lenCallOn(b.High, recv) {
+			return ""
+		}
+		// header: b[0:20]
+		if k, ok := flow.ConstInt(b.High); ok && b.High != nil && k == 20 {
+			return ""
+		}
+		// walker: b[off:] inside a serializer (or a function that allocated make(x.Len())) where off accumulates Len()
+		if b.High == nil && b.Low != nil {
+			if _, isSer := x.serial[caller]; isSer {
+				return ""
+			}
+			if mk, ok := b.X.(*ssa.MakeSlice); ok && len(caller.Params) > 0 && lenCallOn(mk.Len, caller.Params[0]) {
+				return ""
+			}
+		}
+		return "buffer is a slice whose length is not tied to the serialised length"
+	case *ssa.Parameter:
+		if _, isSer := x.serial[caller]; isSer {
+			return ""
+		}
+	}
+	return "buffer of unknown size"
+}
+
+func samePath(a, b ssa.Value) bool {
+	pa, ok1 := flow.Path(a)
+	pb, ok2 := flow.Path(b)
+	return ok1 && ok2 && pa == pb
+}
+
+func (x *c03) instrsAt(f *ssa.Function, s residueSite) []ssa.Instruction {
+	var out []ssa.Instruction
+	flow.Instrs(f, func(in ssa.Instruction) {
+		ps := x.c.P.Fset.Position(in.Pos())
+		if ps.Line == s.Line && ps.Column == s.Col {
+			out = append(out, in)
+		}
+	})
+	return out
+}
+
+func (x *c03) bounds() {
+	c, r := x.c, x.c.R
+	sites, err := compilerResidue(c.P)
+	if err != nil {
+		r.Undecided("O1", "compiler-residue", "-", "cannot obtain the compiler's bounds-check residue: "+err.Error())
+		return
+	}
+	// count all index/slice sites in scope (the compiler-proved ones are discharged wholesale)
+	total := 0
+	for f := range x.scope {
+		flow.Instrs(f, func(in ssa.Instruction) {
+			switch in.(type) {
+			case *ssa.Slice, *ssa.IndexAddr, *ssa.Index:
+				total++
+			}
+		})
+	}
+	inScope := 0
+	counter := map[string]int{}
 	for _, s := range sites {
 		f := c.funcAt(s.File, s.Line, s.Col)
-		in := "out"
-		if f != nil && scope[f] {
-			in = "IN"
+		if f == nil || !x.scope[f] {
+			continue
 		}
-		desc := ""
-		if f != nil {
-			flow.Instrs(f, func(x ssa.Instruction) {
-				ps := c.P.Fset.Position(x.Pos())
-				if ps.Line == s.Line && ps.Column == s.Col {
-					desc += " | " + flow.Describe(x)
-				}
-			})
+		inScope++
+		ins := x.instrsAt(f, s)
+		how, why, shape := x.dischargeBounds(f, ins, s)
+		base := fname(f) + ":" + shape
+		counter[base]++
+		key := fmt.Sprintf("%s#%d", base, counter[base])
+		at := fmt.Sprintf("%s:%d", s.File, s.Line)
+		if how != "" {
+			r.Ok("O1", key, at, how)
+		} else {
+			r.Fail("O1", key, at, "bounds check the compiler cannot prove and no discharge rule covers ("+s.Kind+"): "+why+" — on malformed input this index/slice expression can panic")
 		}
-		r.Note("%s %s:%d:%d %s %s%s", in, s.File, s.Line, s.Col, s.Kind, fname(f), desc)
 	}
-	r.Ok("O1", "probe", "-", fmt.Sprint(len(scope)))
+	r.Trivial("O1", "compiler-proved-sites", "-", fmt.Sprintf("%d index/slice sites in %d scope functions; %d left unproven by the compiler's prove pass and examined individually", total, len(x.scope), inScope))
+	r.Note("bounds: %d sites in scope, %d residue sites in scope, %d residue sites overall", total, inScope, len(sites))
+}
+
+func lenGuardGE(in ssa.Instruction, s ssa.Value, need func(ssa.Value) bool) string {
+	for _, g := range flow.Guards(in) {
+		rl, ok := condRel(g.If.Cond, g.Taken)
+		if !ok {
+			continue
+		}
+		isLen := func(v ssa.Value) bool {
+			a, ok := builtinOf(v, "len")
+			if !ok {
+				// n := len(s) spilled into a phi-free local is the same call value
+				return false
+			}
+			return a == s || sameVal(a, s)
+		}
+		switch {
+		case isLen(rl.a) && need(rl.b) && (rl.op == token.GEQ || rl.op == token.EQL):
+			return short(g.If.Cond.String(), 30)
+		case isLen(rl.b) && need(rl.a) && (rl.op == token.LEQ || rl.op == token.EQL):
+			return short(g.If.Cond.String(), 30)
+		case isLen(rl.a) && rl.op == token.GTR:
+			// len > k-1
+			if k, ok := flow.ConstInt(rl.b); ok {
+				kk := k + 1
+				if need(constOf(kk)) {
+					return short(g.If.Cond.String(), 30)
+				}
+			}
+		}
+	}
+	return ""
+}
+
+type fakeConst struct{ ssa.Value }
+
+func constOf(k int64) ssa.Value { return ssa.NewConst(constant.MakeInt64(k), types.Typ[types.Int]) }
+
+// sameFieldLoad: a and b are loads of the same field of the same base with no store to that
+// field in between (the store(s) to the field in the function dominate both loads).
+func sameFieldLoad(f *ssa.Function, a, b ssa.Value) bool {
+	ua, ok1 := a.(*ssa.UnOp)
+	ub, ok2 := b.(*ssa.UnOp)
+	if !ok1 || !ok2 || ua.Op != token.MUL || ub.Op != token.MUL {
+		return false
+	}
+	fa, ok1 := ua.X.(*ssa.FieldAddr)
+	fb, ok2 := ub.X.(*ssa.FieldAddr)
+	if !ok1 || !ok2 || fa.Field != fb.Field || fa.X != fb.X {
+		return false
+	}
+	okAll := true
+	flow.Instrs(f, func(in ssa.Instruction) {
+		st, ok := in.(*ssa.Store)
+		if !ok {
+			return
+		}
+		if sa, ok := st.Addr.(*ssa.FieldAddr); ok && sa.Field == fa.Field && types.Identical(sa.X.Type(), fa.X.Type()) {
+			if !(flow.Dominates(st, ua) && flow.Dominates(st, ub)) {
+				okAll = false
+			}
+		}
+	})
+	return okAll
+}
+
+func (x *c03) dischargeBounds(f *ssa.Function, ins []ssa.Instruction, s residueSite) (how, why, shape string) {
+	shape = "site"
+	if len(ins) == 0 {
+		return "", "no SSA instruction at this position", "unmapped"
+	}
+	// G4: inlined standard library
+	for _, in := range ins {
+		if call, ok := in.(*ssa.Call); ok {
+			if o := flow.CalleeObj(call); o != nil && o.Pkg() != nil && o.Pkg().Path() == "bytes" && flow.RecvTypeName(o.Type().(*types.Signature)) == "Buffer" {
+				return "G4: inlined bytes.Buffer." + o.Name() + " — the buffer's own invariant (off ≤ len) holds for buffers only manipulated through its methods", "", "bytes.Buffer." + o.Name()
+			}
+		}
+	}
+	// inlined encoding/binary readers: need len(s) >= N
+	for _, in := range ins {
+		call, ok := in.(*ssa.Call)
+		if !ok {
+			continue
+		}
+		o := flow.CalleeObj(call)
+		if o == nil || o.Pkg() == nil || o.Pkg().Path() != "encoding/binary" {
+			continue
+		}
+		need := map[string]int64{"Uint16": 2, "Uint32": 4, "Uint64": 8, "PutUint16": 2, "PutUint32": 4, "PutUint64": 8}[o.Name()]
+		shape = "binary." + o.Name()
+		if need > 0 && len(call.Call.Args) >= 2 {
+			sarg := call.Call.Args[1]
+			if h := x.serializerSite(f, sarg); h != "" {
+				return h, "", shape
+			}
+			if n, ok := sliceConstLen(sarg); ok && n >= need {
+				continue
+			}
+			if g := lenGuardGE(call, sarg, func(k ssa.Value) bool { kk, ok := flow.ConstInt(k); return ok && kk >= need }); g != "" {
+				return fmt.Sprintf("G5: binary.%s under the dominating guard %s", o.Name(), g), "", shape
+			}
+			return "", fmt.Sprintf("binary.%s reads %d bytes of a slice without a dominating length guard", o.Name(), need), shape
+		}
+	}
+	for _, in := range ins {
+		switch v := in.(type) {
+		case *ssa.Slice:
+			shape = "slice" + sliceShape(v)
+			if h, w := x.dischargeSlice(f, v); h != "" {
+				return h, "", shape
+			} else {
+				why = w
+			}
+		case *ssa.IndexAddr:
+			shape = "index" + idxShape(v.Index)
+			if h, w := x.dischargeIndex(f, v, v.X, v.Index); h != "" {
+				return h, "", shape
+			} else {
+				why = w
+			}
+		case *ssa.Index:
+			shape = "index" + idxShape(v.Index)
+			if h, w := x.dischargeIndex(f, v, v.X, v.Index); h != "" {
+				return h, "", shape
+			} else {
+				why = w
+			}
+		}
+	}
+	// exemptions
+	for k, reason := range c03Exemptions {
+		parts := strings.SplitN(k, "|", 2)
+		if parts[0] == fname(f) && strings.HasPrefix(shape, parts[1]) {
+			return "reviewed exemption: " + reason, "", shape
+		}
+	}
+	if why == "" {
+		why = "unrecognised construct " + flow.Describe(ins[0])
+	}
+	return "", why, shape
+}
+
+func sliceShape(v *ssa.Slice) string {
+	p := func(x ssa.Value) string {
+		if x == nil {
+			return ""
+		}
+		if k, ok := flow.ConstInt(x); ok {
+			return fmt.Sprint(k)
+		}
+		return "v"
+	}
+	return "[" + p(v.Low) + ":" + p(v.High) + "]"
+}
+
+func idxShape(i ssa.Value) string {
+	if k, ok := flow.ConstInt(i); ok {
+		return fmt.Sprintf("[%d]", k)
+	}
+	return "[v]"
+}
+
+func (x *c03) serializerSite(f *ssa.Function, base ssa.Value) string {
+	// local buffer make([]byte, recv.Len()) walked while serialising the receiver's children
+	if mk, ok := base.(*ssa.MakeSlice); ok && len(f.Params) > 0 {
+		if call, ok := flow.Peel(mk.Len).(*ssa.Call); ok {
+			if o := flow.CalleeObj(call); o != nil && o.Name() == "Len" && len(call.Call.Args) > 0 && call.Call.Args[0] == ssa.Value(f.Params[0]) {
+				return "S: write into a local buffer allocated as make([]byte, receiver.Len()) and walked by the children's Len() (reduces to len(Serialize()) == Len() per type, which C01 decides)"
+			}
+		}
+	}
+	p, ok := x.serial[f]
+	if !ok {
+		return ""
+	}
+	// base derives from the buffer parameter through slicing / phi
+	v := base
+	for i := 0; i < 8; i++ {
+		if v == ssa.Value(p) {
+			st := x.serialOK[f]
+			if strings.HasPrefix(st, "!") {
+				return ""
+			}
+			return "S: write into the serialiser's output buffer; " + st + " (so the bound reduces to len(Serialize()) == Len() per type, which C01 decides)"
+		}
+		switch y := v.(type) {
+		case *ssa.Slice:
+			v = y.X
+		case *ssa.Phi:
+			if len(y.Edges) > 0 {
+				v = y.Edges[0]
+			}
+		default:
+			return ""
+		}
+	}
+	return ""
+}
+
+func (x *c03) dischargeSlice(f *ssa.Function, v *ssa.Slice) (string, string) {
+	if h := x.serializerSite(f, v.X); h != "" {
+		return h, ""
+	}
+	lo, loConst := int64(0), true
+	if v.Low != nil {
+		lo, loConst = flow.ConstInt(v.Low)
+	}
+	hi, hiConst := int64(-1), v.High == nil
+	if v.High != nil {
+		hi, hiConst = flow.ConstInt(v.High)
+	}
+	// G5: constant bounds under len guard
+	if loConst && (v.High == nil || hiConst) {
+		need := hi
+		if v.High == nil {
+			need = lo
+		}
+		if g := lenGuardGE(v, v.X, func(k ssa.Value) bool { kk, ok := flow.ConstInt(k); return ok && kk >= need }); g != "" {
+			return fmt.Sprintf("G5: constant bounds [%d:%d] under the dominating guard %s", lo, hi, g), ""
+		}
+		// G7: pooled header scratch buf.Bytes()[:20]
+		if call, ok := v.X.(*ssa.Call); ok && flow.IsCallTo(call, "bytes", "Buffer", "Bytes") && need <= 20 {
+			for _, o := range x.c.storageOrigins(call) {
+				_ = o
+			}
+			return "G7: header scratch — every buffer in the reader pool is created with len = MessageBufferLength and re-pooled only with that capacity (assumption recorded: MessageBufferLength ≥ HeaderLength)", ""
+		}
+		return "", fmt.Sprintf("constant slice bounds [%d:%d] without a dominating length guard on the sliced value", lo, hi)
+	}
+	// G2: x[:h] under len(x) >= h, h non-negative
+	if v.Low == nil && v.High != nil {
+		okGuard := lenGuardGE(v, v.X, func(k ssa.Value) bool { return k == v.High || sameVal(k, v.High) || sameFieldLoad(f, k, v.High) })
+		if okGuard != "" && x.nn.val(v.High, 0) {
+			return "G2: x[:h] dominated by the guard " + okGuard + " on the same value, h non-negative", ""
+		}
+		// Gread: b[:len(b)+n], n returned by a full read into b[len(b):cap(b)]
+		if bo, ok := v.High.(*ssa.BinOp); ok && bo.Op == token.ADD {
+			if a, isLen := builtinOf(bo.X, "len"); isLen && a == v.X {
+				if readCountInto(bo.Y, v.X) {
+					return "Gread: b[:len(b)+n] with n the count a read into b[len(b):cap(b)] returned (≤ cap(b)−len(b) by the reader contract)", ""
+				}
+			}
+		}
+		// [0:l] of a writer buffer allocated with at least l
+		return "", "x[:h] without a dominating len(x) ≥ h guard on the same value (or h not provably non-negative)"
+	}
+	if v.Low != nil && v.High == nil {
+		// G1 cursor loop: n < len(x) passing edge, n non-negative
+		for _, g := range flow.Guards(v) {
+			rl, ok := condRel(g.If.Cond, g.Taken)
+			if !ok {
+				continue
+			}
+			a, isLen := builtinOf(rl.b, "len")
+			if rl.a == v.Low && isLen && a == v.X && rl.op == token.LSS && x.nn.val(v.Low, 0) {
+				return "G1: b[n:] under the loop condition n < len(b), cursor non-negative (0 plus non-negative increments)", ""
+			}
+			a2, isLen2 := builtinOf(rl.a, "len")
+			if rl.b == v.Low && isLen2 && a2 == v.X && rl.op == token.GTR && x.nn.val(v.Low, 0) {
+				return "G1: b[n:] under the loop condition len(b) > n, cursor non-negative", ""
+			}
+		}
+		// Gwrite: b[wn:] with wn the count Write(b) returned, under wn > 0
+		if ex, ok := v.Low.(*ssa.Extract); ok && ex.Index == 0 {
+			if call, ok := ex.Tuple.(*ssa.Call); ok && call.Call.IsInvoke() && (call.Call.Method.Name() == "Write" || call.Call.Method.Name() == "WriteStream") && len(call.Call.Args) >= 1 && call.Call.Args[0] == v.X {
+				return "Gwrite: b[wn:] with wn the count Write(b) returned (0 ≤ wn ≤ len(b) by the io.Writer contract)", ""
+			}
+		}
+		return "", "b[n:] without a dominating n < len(b) guard"
+	}
+	// [0:l] of pooled writer buffer
+	if v.Low != nil && v.High != nil {
+		if k, ok := flow.ConstInt(v.Low); ok && k == 0 {
+			if call, ok := v.X.(*ssa.Call); ok && flow.IsCallTo(call, "bytes", "Buffer", "Bytes") {
+				// buffer obtained from a function called with the same length
+				if bc, ok := call.Call.Args[0].(*ssa.Call); ok && len(bc.Call.Args) == 1 && sameVal(bc.Call.Args[0], v.High) {
+					if g := flow.StaticCallee(bc); g != nil && x.allocatesAtLeastParam(g) {
+						return "Gbuf: buf.Bytes()[0:l] of a buffer obtained from " + g.Name() + "(l), which returns a buffer of at least l (or MessageBufferLength ≥ l) bytes", ""
+					}
+				}
+			}
+		}
+	}
+	return "", "slice expression with non-constant bounds not covered by a rule"
+}
+
+// allocatesAtLeastParam: g(min) returns bytes.NewBuffer(make([]byte, n)) with n == min when
+// min > K, or a pooled / fresh K-sized buffer when min <= K.
+func (x *c03) allocatesAtLeastParam(g *ssa.Function) bool {
+	if g.Blocks == nil || len(g.Params) != 1 {
+		return false
+	}
+	okAll := true
+	n := 0
+	for _, rv := range flow.ReturnValues(g, 0) {
+		n++
+		switch v := flow.Peel(rv).(type) {
+		case *ssa.Call:
+			if flow.IsCallTo(v, "bytes", "", "NewBuffer") {
+				mk, ok := v.Call.Args[0].(*ssa.MakeSlice)
+				if !ok {
+					okAll = false
+					continue
+				}
+				if mk.Len == ssa.Value(g.Params[0]) {
+					continue
+				}
+				// make(K) on the path where min <= K
+				okGuard := false
+				for _, gd := range flow.Guards(v) {
+					rl, ok := condRel(gd.If.Cond, gd.Taken)
+					if ok && rl.a == ssa.Value(g.Params[0]) && rl.op == token.LEQ && sameVal(rl.b, mk.Len) {
+						okGuard = true
+					}
+				}
+				if !okGuard {
+					okAll = false
+				}
+				continue
+			}
+			okAll = false
+		case *ssa.TypeAssert:
+			// pooled: only buffers of capacity K are pooled; reached on min <= K
+			continue
+		default:
+			okAll = false
+		}
+	}
+	return okAll && n > 0
+}
+
+func readCountInto(n ssa.Value, b ssa.Value) bool {
+	seen := map[ssa.Value]bool{}
+	var rec func(v ssa.Value) bool
+	rec = func(v ssa.Value) bool {
+		if seen[v] {
+			return true
+		}
+		seen[v] = true
+		switch y := v.(type) {
+		case *ssa.Phi:
+			for _, e := range y.Edges {
+				if !rec(e) {
+					return false
+				}
+			}
+			return len(y.Edges) > 0
+		case *ssa.Extract:
+			call, ok := y.Tuple.(*ssa.Call)
+			if !ok || y.Index != 0 {
+				return false
+			}
+			var buf ssa.Value
+			if flow.IsCallTo(call, "io", "", "ReadFull") || flow.IsCallTo(call, "io", "", "ReadAtLeast") {
+				buf = call.Call.Args[1]
+			} else if call.Call.IsInvoke() && call.Call.Method.Name() == "ReadAtLeast" {
+				buf = call.Call.Args[0]
+			}
+			sl, ok := buf.(*ssa.Slice)
+			if !ok || sl.X != b {
+				return false
+			}
+			lo, ok1 := builtinOf(sl.Low, "len")
+			hi, ok2 := builtinOf(sl.High, "cap")
+			return ok1 && ok2 && lo == b && hi == b
+		}
+		return false
+	}
+	return rec(n)
+}
+
+func (x *c03) dischargeIndex(f *ssa.Function, in ssa.Instruction, base, idx ssa.Value) (string, string) {
+	if h := x.serializerSite(f, base); h != "" {
+		return h, ""
+	}
+	k, isConst := flow.ConstInt(idx)
+	if isConst {
+		// array pointer: always fine (compiler proves); slices:
+		if g := lenGuardGE(in, base, func(v ssa.Value) bool { kk, ok := flow.ConstInt(v); return ok && kk > k }); g != "" {
+			return fmt.Sprintf("G5: constant index %d under the dominating guard %s", k, g), ""
+		}
+		// G9: index into a phi of non-empty constant strings
+		if ph, ok := base.(*ssa.Phi); ok {
+			okAll := true
+			for _, e := range ph.Edges {
+				s, ok := flow.ConstString(e)
+				if !ok || int64(len(s)) <= k {
+					okAll = false
+				}
+			}
+			if okAll {
+				return "G9: index into a choice of constant strings all longer than the index", ""
+			}
+		}
+		if k == 0 {
+			if why := x.nonEmpty(f, in, base, 0); why != "" {
+				return "G8: " + why, ""
+			}
+		}
+		return "", fmt.Sprintf("constant index %d without a dominating length guard", k)
+	}
+	// b[i] with i < len(b) guard (loop)
+	for _, g := range flow.Guards(in) {
+		rl, ok := condRel(g.If.Cond, g.Taken)
+		if !ok {
+			continue
+		}
+		if a, isLen := builtinOf(rl.b, "len"); isLen && rl.a == idx && a == base && rl.op == token.LSS && x.nn.val(idx, 0) {
+			return "G1: index under i < len(b), i non-negative", ""
+		}
+	}
+	return "", "variable index without a dominating i < len(b) guard"
+}
+
+// nonEmpty: argument for "v has at least one element at `at`".
+func (x *c03) nonEmpty(f *ssa.Function, at ssa.Instruction, v ssa.Value, depth int) string {
+	if depth > 3 {
+		return ""
+	}
+	switch y := v.(type) {
+	case *ssa.Extract:
+		// result of a call with nil error whose callee returns non-empty slices with nil errors
+		if call, ok := y.Tuple.(*ssa.Call); ok && y.Index == 0 {
+			g := flow.StaticCallee(call)
+			if g != nil && x.scope[g] {
+				e := errorResult(call)
+				onNil := false
+				for _, gd := range flow.Guards(at) {
+					rl, ok := condRel(gd.If.Cond, gd.Taken)
+					if ok && rl.op == token.EQL && ((rl.a == e && flow.IsNilConst(rl.b)) || (rl.b == e && flow.IsNilConst(rl.a))) {
+						onNil = true
+					}
+				}
+				if onNil && x.returnsNonEmptyWithNilErr(g) {
+					return "result of " + g.Name() + " on its nil-error edge; every nil-error return of " + g.Name() + " carries a non-empty slice"
+				}
+			}
+		}
+		// comma-ok map hit of an index whose values are only ever append() results
+		if lk, ok := y.Tuple.(*ssa.Lookup); ok && lk.CommaOk && y.Index == 0 {
+			for _, gd := range flow.Guards(at) {
+				cond, neg := flow.Cond(gd.If.Cond, gd.Taken)
+				if ex, ok := cond.(*ssa.Extract); ok && ex.Tuple == ssa.Value(lk) && ex.Index == 1 && !neg {
+					if x.mapValuesAppended(lk.X) {
+						return "map hit of an index whose values are only ever append()-extended slices"
+					}
+				}
+			}
+		}
+	case *ssa.Parameter:
+		// every library call site passes a non-empty argument
+		idx := paramIndex(f, y)
+		n := 0
+		for _, caller := range x.c.P.LibraryFuncs() {
+			for _, ci := range flow.CallInstrs(caller) {
+				if flow.StaticCallee(ci) != f {
+					continue
+				}
+				n++
+				a := ci.Common().Args[idx]
+				if caller == f && a == ssa.Value(y) {
+					continue // recursion with the same argument
+				}
+				if sl, ok := a.(*ssa.Slice); ok && sl.High == nil && sl.Low != nil {
+					// avps[n:] under n < len(avps)
+					okG := false
+					for _, gd := range flow.Guards(ci) {
+						rl, ok := condRel(gd.If.Cond, gd.Taken)
+						if !ok {
+							continue
+						}
+						if la, isLen := builtinOf(rl.b, "len"); isLen && rl.a == sl.Low && la == sl.X && rl.op == token.LSS {
+							okG = true
+						}
+					}
+					if okG {
+						continue
+					}
+					return ""
+				}
+				if x.nonEmpty(caller, ci, a, depth+1) == "" {
+					return ""
+				}
+			}
+		}
+		if n > 0 {
+			return fmt.Sprintf("parameter: all %d library call sites pass a non-empty slice (map hit of an append-built index, x[n:] under n < len(x), or the same argument recursively)", n)
+		}
+	}
+	return ""
+}
+
+func (x *c03) returnsNonEmptyWithNilErr(g *ssa.Function) bool {
+	okAll := true
+	n := 0
+	flow.Instrs(g, func(in ssa.Instruction) {
+		ret, ok := in.(*ssa.Return)
+		if !ok || len(ret.Results) != 2 {
+			return
+		}
+		isNil := false
+		for _, s := range flow.SpillSources(ret.Results[1]) {
+			if flow.IsNilConst(s) {
+				isNil = true
+			}
+		}
+		if !isNil {
+			if _, isConst := ret.Results[1].(*ssa.Const); isConst {
+				return
+			}
+			if definitelyNonNilError(ret.Results[1]) {
+				return
+			}
+			// unknown error value: conservatively treat as possibly nil
+		}
+		n++
+		v := ret.Results[0]
+		if !x.sliceNonEmptyAt(ret, v, 0) {
+			okAll = false
+		}
+	})
+	return okAll && n > 0
+}
+
+func (x *c03) sliceNonEmptyAt(at ssa.Instruction, v ssa.Value, depth int) bool {
+	if depth > 4 {
+		return false
+	}
+	// guarded by len(v) != 0 / > 0 (the failing edge returned)
+	for _, gd := range flow.Guards(at) {
+		rl, ok := condRel(gd.If.Cond, gd.Taken)
+		if !ok {
+			continue
+		}
+		if a, isLen := builtinOf(rl.a, "len"); isLen && a == v && isZeroConst(rl.b) && (rl.op == token.NEQ || rl.op == token.GTR) {
+			return true
+		}
+	}
+	switch y := v.(type) {
+	case *ssa.Call:
+		if b, ok := y.Call.Value.(*ssa.Builtin); ok && b.Name() == "append" && len(y.Call.Args) == 2 {
+			// variadic slice of a fixed array with >= 1 element, or a non-empty slice
+			if sl, ok := y.Call.Args[1].(*ssa.Slice); ok {
+				if al, ok := sl.X.(*ssa.Alloc); ok {
+					if arr, ok := al.Type().(*types.Pointer).Elem().Underlying().(*types.Array); ok && arr.Len() >= 1 {
+						return true
+					}
+				}
+			}
+			// append(x, r...) with r the result of a recursive call of the same function on its nil-error edge (coinduction)
+			if ex, ok := y.Call.Args[1].(*ssa.Extract); ok && ex.Index == 0 {
+				if rc, ok := ex.Tuple.(*ssa.Call); ok && flow.StaticCallee(rc) == at.Parent() {
+					e := errorResult(rc)
+					for _, gd := range flow.Guards(y) {
+						rl, ok := condRel(gd.If.Cond, gd.Taken)
+						if ok && rl.op == token.EQL && ((rl.a == e && flow.IsNilConst(rl.b)) || (rl.b == e && flow.IsNilConst(rl.a))) {
+							return true
+						}
+					}
+				}
+			}
+			return x.sliceNonEmptyAt(at, y.Call.Args[0], depth+1)
+		}
+	case *ssa.Phi:
+		for _, e := range y.Edges {
+			if !x.sliceNonEmptyAt(at, e, depth+1) {
+				return false
+			}
+		}
+		return len(y.Edges) > 0
+	}
+	return false
+}
+
+// mapValuesAppended: the map value loaded here comes from a module function that only stores
+// append() results into the map.
+func (x *c03) mapValuesAppended(m ssa.Value) bool {
+	// find the producer: parameter <- call site argument <- call result of a builder
+	var builder *ssa.Function
+	var find func(v ssa.Value, f *ssa.Function, d int)
+	find = func(v ssa.Value, f *ssa.Function, d int) {
+		if d > 3 || builder != nil {
+			return
+		}
+		switch y := flow.Peel(v).(type) {
+		case *ssa.Call:
+			if g := flow.StaticCallee(y); g != nil && x.scope[g] {
+				builder = g
+			}
+		case *ssa.Parameter:
+			idx := paramIndex(y.Parent(), y)
+			for _, caller := range x.c.P.LibraryFuncs() {
+				for _, ci := range flow.CallInstrs(caller) {
+					if flow.StaticCallee(ci) == y.Parent() && idx < len(ci.Common().Args) {
+						find(ci.Common().Args[idx], caller, d+1)
+					}
+				}
+			}
+		}
+	}
+	if in, ok := m.(ssa.Instruction); ok {
+		find(m, in.Parent(), 0)
+	} else if p, ok := m.(*ssa.Parameter); ok {
+		find(p, p.Parent(), 0)
+	}
+	if builder == nil {
+		return false
+	}
+	okAll, n := true, 0
+	flow.Instrs(builder, func(in ssa.Instruction) {
+		mu, ok := in.(*ssa.MapUpdate)
+		if !ok {
+			return
+		}
+		n++
+		call, ok := mu.Value.(*ssa.Call)
+		if !ok {
+			okAll = false
+			return
+		}
+		if b, ok := call.Call.Value.(*ssa.Builtin); !ok || b.Name() != "append" {
+			okAll = false
+		}
+	})
+	return okAll && n > 0
+}
+
+// ---------- O2 ----------
+
+func (x *c03) asserts() {
+	c, r := x.c, x.c.R
+	typs, _ := c.datatypeImplementors()
+	// Impl(K): implementor types whose Type() returns constant K
+	implByK := map[string][]types.Type{}
+	for _, T := range typs {
+		if v, ok := c.methodConstResult(T, "Type"); ok {
+			implByK[v.ExactString()] = append(implByK[v.ExactString()], T)
+		}
+	}
+	counter := map[string]int{}
+	var fs []*ssa.Function
+	for f := range x.scope {
+		fs = append(fs, f)
+	}
+	sort.Slice(fs, func(i, j int) bool { return fname(fs[i]) < fname(fs[j]) })
+	for _, f := range fs {
+		flow.Instrs(f, func(in ssa.Instruction) {
+			ta, ok := in.(*ssa.TypeAssert)
+			if !ok || ta.CommaOk {
+				return
+			}
+			// interface-to-interface assertions of static supertypes are no-ops inserted by go/ssa
+			if types.IsInterface(ta.AssertedType) && types.AssignableTo(ta.X.Type(), ta.AssertedType) {
+				return
+			}
+			base := fmt.Sprintf("%s:assert-%s", fname(f), types.TypeString(ta.AssertedType, func(p *types.Package) string { return p.Name() }))
+			counter[base]++
+			key := fmt.Sprintf("%s#%d", base, counter[base])
+			how, why := x.dischargeAssert(f, ta, implByK)
+			if how != "" {
+				r.Ok("O2", key, c.pos(ta), how)
+			} else {
+				r.Fail("O2", key, c.pos(ta), "type assertion without comma-ok that can fail on decoded data: "+why)
+			}
+		})
+	}
+}
+
+func (x *c03) dischargeAssert(f *ssa.Function, ta *ssa.TypeAssert, implByK map[string][]types.Type) (string, string) {
+	c := x.c
+	// (a) pool homogeneity
+	if call, ok := ta.X.(*ssa.Call); ok && flow.IsCallTo(call, "sync", "Pool", "Get") {
+		pool, _ := flow.Path(call.Call.Args[0])
+		okAll, n := true, 0
+		for _, g := range c.P.LibraryFuncs() {
+			for _, ci := range flow.CallInstrs(g) {
+				if !flow.IsCallTo(ci, "sync", "Pool", "Put") {
+					continue
+				}
+				p2, _ := flow.Path(ci.Common().Args[0])
+				if p2 != pool {
+					continue
+				}
+				n++
+				if mi, ok := ci.Common().Args[1].(*ssa.MakeInterface); !ok || !types.Identical(mi.X.Type(), ta.AssertedType) {
+					okAll = false
+				}
+			}
+		}
+		if okAll && n > 0 {
+			return fmt.Sprintf("pool homogeneity: every Put into %s stores a %s", pool, ta.AssertedType), ""
+		}
+		return "", "pool " + pool + " is not homogeneous"
+	}
+	// (b) code.(T) inside a type switch: go/ssa emits non-comma-ok asserts after a successful typeswitch test on the same value
+	for _, g := range flow.Guards(ta) {
+		cond, neg := flow.Cond(g.If.Cond, g.Taken)
+		if ex, ok := cond.(*ssa.Extract); ok && !neg && ex.Index == 1 {
+			if t2, ok := ex.Tuple.(*ssa.TypeAssert); ok && t2.X == ta.X && types.Identical(t2.AssertedType, ta.AssertedType) {
+				return "dominated by a successful comma-ok assertion of the same value to the same type (type switch)", ""
+			}
+		}
+	}
+	// (c) Type()==K guard in the same function
+	if root, fields, ok := fieldPath(addrOfLoad(ta.X)); ok {
+		if x.typeGuardOn(flow.Guards(ta), root, fields, ta.AssertedType, implByK) {
+			return "dominated by Type()==K on the same value; K's only implementor is " + ta.AssertedType.String(), ""
+		}
+	}
+	for _, g := range flow.Guards(ta) {
+		rl, ok := condRel(g.If.Cond, g.Taken)
+		if !ok || rl.op != token.EQL {
+			continue
+		}
+		call, ok := rl.a.(*ssa.Call)
+		k, isK := rl.b.(*ssa.Const)
+		if !ok || !isK || !call.Call.IsInvoke() || call.Call.Method.Name() != "Type" {
+			continue
+		}
+		if !sameIface(call.Call.Value, ta.X, f) {
+			continue
+		}
+		impls := implByK[k.Value.ExactString()]
+		if len(impls) == 1 && types.Identical(impls[0], ta.AssertedType) {
+			return fmt.Sprintf("dominated by Type() == %s on the same value; the only implementor whose Type() returns that constant is %s", k.Value, ta.AssertedType), ""
+		}
+		var names []string
+		for _, t := range impls {
+			names = append(names, t.String())
+		}
+		return "", fmt.Sprintf("guarded by Type() == %s, but the types reporting that id are %v, not exactly {%s}", k.Value, names, ta.AssertedType)
+	}
+	// (d) asserting the result of a known constructor in the same package chain: v.(T) where v comes from a call whose every return is T
+	if ex, ok := ta.X.(*ssa.Extract); ok {
+		if call, ok := ex.Tuple.(*ssa.Call); ok {
+			if g := flow.StaticCallee(call); g != nil && g.Blocks != nil {
+				okAll, n := true, 0
+				for _, rv := range flow.ReturnValues(g, ex.Index) {
+					if flow.IsNilConst(rv) {
+						continue
+					}
+					n++
+					mi, ok := rv.(*ssa.MakeInterface)
+					if !ok || !types.Identical(mi.X.Type(), ta.AssertedType) {
+						okAll = false
+					}
+				}
+				// nil results only on error returns, and the assert must be on the nil-error edge
+				e := errorResult(call)
+				onNil := e == nil
+				for _, gd := range flow.Guards(ta) {
+					rl, ok := condRel(gd.If.Cond, gd.Taken)
+					if ok && rl.op == token.EQL && ((rl.a == e && flow.IsNilConst(rl.b)) || (rl.b == e && flow.IsNilConst(rl.a))) {
+						onNil = true
+					}
+				}
+				if okAll && n > 0 && onNil {
+					return fmt.Sprintf("asserts the result of %s on its nil-error edge; every non-nil value it returns is a %s", g.Name(), ta.AssertedType), ""
+				}
+			}
+		}
+	}
+	// (e) caller-established guard (depth 1): f is only called on edges guarded by Type()==K of the argument
+	if p, ok := flow.Peel(ta.X).(*ssa.Parameter); ok || isFieldOfParam(ta.X) {
+		_ = p
+		if how := x.callerTypeGuard(f, ta, implByK); how != "" {
+			return how, ""
+		}
+	}
+	return "", "no dominating Type()==K test / successful comma-ok assertion on the same value"
+}
+
+func isFieldOfParam(v ssa.Value) bool {
+	root, _, ok := fieldPath(addrOfLoad(v))
+	if !ok {
+		return false
+	}
+	_, isP := flow.Peel(root).(*ssa.Parameter)
+	return isP
+}
+
+func addrOfLoad(v ssa.Value) ssa.Value {
+	if u, ok := v.(*ssa.UnOp); ok && u.Op == token.MUL {
+		return u.X
+	}
+	return v
+}
+
+// sameIface: a and b denote the same interface value (same SSA value, or loads of the same
+// field path with no intervening store).
+func sameIface(a, b ssa.Value, f *ssa.Function) bool {
+	if a == b {
+		return true
+	}
+	if sameFieldLoad(f, a, b) {
+		return true
+	}
+	pa, ok1 := flow.Path(a)
+	pb, ok2 := flow.Path(b)
+	if ok1 && ok2 && pa == pb {
+		// same access path; require no store to the last field between (function-wide: no store at all to that field after both)
+		return sameFieldLoadLoose(f, a, b)
+	}
+	return false
+}
+
+func sameFieldLoadLoose(f *ssa.Function, a, b ssa.Value) bool {
+	ua, ok1 := a.(*ssa.UnOp)
+	ub, ok2 := b.(*ssa.UnOp)
+	if !ok1 || !ok2 {
+		return false
+	}
+	fa, ok1 := ua.X.(*ssa.FieldAddr)
+	fb, ok2 := ub.X.(*ssa.FieldAddr)
+	if !ok1 || !ok2 || fa.Field != fb.Field {
+		return false
+	}
+	okAll := true
+	flow.Instrs(f, func(in ssa.Instruction) {
+		st, ok := in.(*ssa.Store)
+		if !ok {
+			return
+		}
+		if sa, ok := st.Addr.(*ssa.FieldAddr); ok && sa.Field == fa.Field && types.Identical(sa.X.Type(), fa.X.Type()) {
+			// a store between the two loads kills
+			if flow.PathAvoiding(f, ua, func(x ssa.Instruction) bool { return x == ssa.Instruction(st) }, func(x ssa.Instruction) bool { return x == ssa.Instruction(ub) }) != nil &&
+				flow.PathAvoiding(f, st, func(x ssa.Instruction) bool { return x == ssa.Instruction(ub) }, nil) != nil {
+				okAll = false
+			}
+		}
+	})
+	return okAll
+}
+
+// typeGuardOn: a Type()==K test (passing edge among gs) on the value root.fields, K's only
+// implementor being want.
+func (x *c03) typeGuardOn(gs []flow.Guard, root ssa.Value, fields []string, want types.Type, implByK map[string][]types.Type) bool {
+	for _, g := range gs {
+		rl, okRel := condRel(g.If.Cond, g.Taken)
+		if okRel && rl.op == token.EQL {
+			call, ok := rl.a.(*ssa.Call)
+			k, isK := rl.b.(*ssa.Const)
+			if ok && isK && call.Call.IsInvoke() && call.Call.Method.Name() == "Type" {
+				r2, f2, ok := fieldPath(addrOfLoad(call.Call.Value))
+				if ok && flow.Peel(r2) == flow.Peel(root) && strings.Join(f2, ".") == strings.Join(fields, ".") {
+					impls := implByK[k.Value.ExactString()]
+					if len(impls) == 1 && types.Identical(impls[0], want) {
+						return true
+					}
+				}
+			}
+		}
+		// boolean helper: if h(.., root, ..)#i { ... } where h's i-th result is true only under the guard
+		cond, neg := flow.Cond(g.If.Cond, g.Taken)
+		if ex, ok := cond.(*ssa.Extract); ok && !neg {
+			if hc, ok := ex.Tuple.(*ssa.Call); ok {
+				if h := flow.StaticCallee(hc); h != nil && h.Blocks != nil {
+					for ai, a := range hc.Call.Args {
+						if flow.Peel(a) != flow.Peel(root) || ai >= len(h.Params) {
+							continue
+						}
+						if x.boolImpliesTypeGuard(h, ex.Index, h.Params[ai], fields, want, implByK) {
+							return true
+						}
+					}
+				}
+			}
+		}
+	}
+	return false
+}
+
+// boolImpliesTypeGuard: result idx of h can be true only on paths where Type()==K held for
+// param.fields.
+func (x *c03) boolImpliesTypeGuard(h *ssa.Function, idx int, param *ssa.Parameter, fields []string, want types.Type, implByK map[string][]types.Type) bool {
+	okAll, n := true, 0
+	for _, rv := range flow.ReturnValues(h, idx) {
+		n++
+		var visit func(v ssa.Value, at ssa.Instruction, d int) bool
+		visit = func(v ssa.Value, at ssa.Instruction, d int) bool {
+			if d > 4 {
+				return false
+			}
+			switch y := v.(type) {
+			case *ssa.Const:
+				if y.Value != nil && y.Value.String() == "false" {
+					return true
+				}
+				// true constant: the edge it arrives on must be guarded
+				if os.Getenv("DVERIF_DEBUG") != "" {
+					fmt.Fprintf(os.Stderr, "  bool true edge at=%v guards=%d implByK=%v\n", at, len(flow.Guards(at)), implByK)
+				}
+				if at == nil {
+					return false
+				}
+				return x.typeGuardOn(flow.Guards(at), param, fields, want, implByK)
+			case *ssa.Phi:
+				for i, e := range y.Edges {
+					pred := y.Block().Preds[i]
+					if !visit(e, pred.Instrs[len(pred.Instrs)-1], d+1) {
+						return false
+					}
+				}
+				return true
+			}
+			return false
+		}
+		if !visit(rv, nil, 0) {
+			okAll = false
+		}
+	}
+	return okAll && n > 0
+}
+
+// callerTypeGuard: every library call site of f is dominated by Type()==K on the value f asserts.
+func (x *c03) callerTypeGuard(f *ssa.Function, ta *ssa.TypeAssert, implByK map[string][]types.Type) string {
+	root, fields, ok := fieldPath(addrOfLoad(ta.X))
+	var param *ssa.Parameter
+	if ok {
+		param, _ = flow.Peel(root).(*ssa.Parameter)
+	} else if p, isP := flow.Peel(ta.X).(*ssa.Parameter); isP {
+		param, fields = p, nil
+	}
+	if param == nil || param.Parent() != f {
+		return ""
+	}
+	idx := paramIndex(f, param)
+	n := 0
+	for _, caller := range x.c.P.LibraryFuncs() {
+		for _, ci := range flow.CallInstrs(caller) {
+			if flow.StaticCallee(ci) != f {
+				continue
+			}
+			n++
+			if os.Getenv("DVERIF_DEBUG") != "" {
+				fmt.Fprintf(os.Stderr, "callerTypeGuard %s <- %s guards=%d fields=%v\n", f.Name(), caller.Name(), len(flow.Guards(ci)), fields)
+			}
+			if !x.typeGuardOn(flow.Guards(ci), ci.Common().Args[idx], fields, ta.AssertedType, implByK) {
+				return ""
+			}
+		}
+	}
+	if n == 0 {
+		return ""
+	}
+	return fmt.Sprintf("all %d library call sites are dominated by a Type()==K test (directly or through a boolean helper) on the asserted value, K's only implementor being %s", n, ta.AssertedType)
+}
+
+// ---------- O3 ----------
+
+// wireTainted: the value derives from message bytes (wire length fields, byte loads, BigEndian reads).
+func (x *c03) wireTainted(v ssa.Value, seen map[ssa.Value]bool, depth int) bool {
+	if v == nil || seen[v] || depth > 10 {
+		return false
+	}
+	seen[v] = true
+	switch y := v.(type) {
+	case *ssa.Const:
+		return false
+	case *ssa.Convert:
+		return x.wireTainted(y.X, seen, depth+1)
+	case *ssa.ChangeType:
+		return x.wireTainted(y.X, seen, depth+1)
+	case *ssa.BinOp:
+		return x.wireTainted(y.X, seen, depth+1) || x.wireTainted(y.Y, seen, depth+1)
+	case *ssa.Phi:
+		for _, e := range y.Edges {
+			if x.wireTainted(e, seen, depth+1) {
+				return true
+			}
+		}
+		return false
+	case *ssa.UnOp:
+		if y.Op == token.MUL {
+			if tn, fld, _, ok := flow.FieldOf(y); ok {
+				if (tn == "Header" && fld == "MessageLength") || (tn == "AVP" && fld == "Length") {
+					return true
+				}
+				return false
+			}
+			if ia, ok := y.X.(*ssa.IndexAddr); ok && isByteSlice(ia.X.Type()) {
+				return true
+			}
+		}
+		return false
+	case *ssa.Call:
+		if _, ok := y.Call.Value.(*ssa.Builtin); ok {
+			return false // len/cap: data actually present
+		}
+		if o := flow.CalleeObj(y); o != nil && o.Pkg() != nil && o.Pkg().Path() == "encoding/binary" {
+			return true
+		}
+		if g := flow.StaticCallee(y); g != nil && x.scope[g] && g.Blocks != nil {
+			for _, rv := range flow.ReturnValues(g, 0) {
+				if x.wireTainted(rv, seen, depth+1) {
+					return true
+				}
+			}
+			for _, a := range y.Call.Args {
+				if _, isBasic := a.Type().Underlying().(*types.Basic); isBasic && x.wireTainted(a, seen, depth+1) {
+					return true
+				}
+			}
+		}
+		return false
+	case *ssa.Parameter:
+		// parameters named by callers: check call sites one level
+		f := y.Parent()
+		idx := paramIndex(f, y)
+		for _, caller := range x.c.P.LibraryFuncs() {
+			if !x.scope[caller] {
+				continue
+			}
+			for _, ci := range flow.CallInstrs(caller) {
+				if flow.StaticCallee(ci) == f && idx < len(ci.Common().Args) {
+					if x.wireTainted(ci.Common().Args[idx], seen, depth+1) {
+						return true
+					}
+				}
+			}
+		}
+	}
+	return false
+}
+
+// boundedSize: a wire-tainted size is acceptable when it is min(tainted, untainted): a phi whose
+// tainted alternatives arrive on edges where they are compared below an untainted value.
+func (x *c03) boundedSize(v ssa.Value, depth int) bool {
+	if !x.wireTainted(v, map[ssa.Value]bool{}, 0) {
+		return true
+	}
+	if depth > 3 {
+		return false
+	}
+	ph, ok := v.(*ssa.Phi)
+	if !ok {
+		return false
+	}
+	for i, e := range ph.Edges {
+		if !x.wireTainted(e, map[ssa.Value]bool{}, 0) {
+			continue
+		}
+		okEdge := false
+		for _, rl := range edgeRels(ph.Block().Preds[i], ph.Block()) {
+			// e <= u  or  e < u  with u untainted
+			var other ssa.Value
+			switch {
+			case sameVal(rl.a, e) && (rl.op == token.LEQ || rl.op == token.LSS):
+				other = rl.b
+			case sameVal(rl.b, e) && (rl.op == token.GEQ || rl.op == token.GTR):
+				other = rl.a
+			}
+			if other != nil && !x.wireTainted(other, map[ssa.Value]bool{}, 0) {
+				okEdge = true
+			}
+		}
+		if !okEdge && !x.boundedSize(e, depth+1) {
+			return false
+		}
+	}
+	return true
+}
+
+func (x *c03) allocs() {
+	c, r := x.c, x.c.R
+	var fs []*ssa.Function
+	for f := range x.decode {
+		fs = append(fs, f)
+	}
+	sort.Slice(fs, func(i, j int) bool { return fname(fs[i]) < fname(fs[j]) })
+	counter := map[string]int{}
+	for _, f := range fs {
+		flow.Instrs(f, func(in ssa.Instruction) {
+			var sizes []ssa.Value
+			kind := ""
+			switch v := in.(type) {
+			case *ssa.MakeSlice:
+				sizes, kind = []ssa.Value{v.Len, v.Cap}, "make-slice"
+			case *ssa.MakeMap:
+				if v.Reserve != nil {
+					sizes, kind = []ssa.Value{v.Reserve}, "make-map"
+				}
+			case *ssa.MakeChan:
+				sizes, kind = []ssa.Value{v.Size}, "make-chan"
+			case *ssa.Call:
+				if flow.IsCallTo(v, "bytes", "", "Repeat") || flow.IsCallTo(v, "strings", "", "Repeat") {
+					sizes, kind = []ssa.Value{v.Call.Args[1]}, "repeat"
+				}
+				if flow.IsCallTo(v, "bytes", "Buffer", "Grow") {
+					sizes, kind = []ssa.Value{v.Call.Args[1]}, "buffer-grow"
+				}
+			}
+			if kind == "" {
+				return
+			}
+			allConst := true
+			for _, s := range sizes {
+				if _, ok := flow.ConstInt(s); !ok {
+					allConst = false
+				}
+			}
+			if allConst {
+				return
+			}
+			base := fname(f) + ":" + kind
+			counter[base]++
+			key := fmt.Sprintf("%s#%d", base, counter[base])
+			for _, s := range sizes {
+				if _, ok := flow.ConstInt(s); ok {
+					continue
+				}
+				if !x.boundedSize(s, 0) {
+					r.Fail("O3", key, c.pos(in), "allocation whose size derives from a length the input merely claims ("+short(s.String(), 50)+") and is not bounded by a constant or by the data already received: a few header bytes can make the decoder allocate up to 16 MiB (or ~4 GiB after wrap-around)")
+					return
+				}
+			}
+			if x.wireTainted(sizes[0], map[ssa.Value]bool{}, 0) || (len(sizes) > 1 && x.wireTainted(sizes[1], map[ssa.Value]bool{}, 0)) {
+				r.Ok("O3", key, c.pos(in), "wire-derived size bounded by min(·, constant / received data) on every edge")
+			} else {
+				r.Ok("O3", key, c.pos(in), "size does not derive from wire length fields (dictionary data / lengths of data present)")
+			}
+		})
+	}
+	// O3b
+	rp := c.readPath()
+	c.lengthGuard(rp, "O3b")
+	// other unsigned subtractions with tainted operands in decode functions
+	for _, f := range fs {
+		flow.Instrs(f, func(in ssa.Instruction) {
+			bo, ok := in.(*ssa.BinOp)
+			if !ok || bo.Op != token.SUB || !isUnsigned(bo.Type()) || isMsgLenMinusHeader(bo) {
+				return
+			}
+			if !x.wireTainted(bo.X, map[ssa.Value]bool{}, 0) && !x.wireTainted(bo.Y, map[ssa.Value]bool{}, 0) {
+				return
+			}
+			// guard X >= Y
+			okG := false
+			for _, g := range flow.Guards(bo) {
+				rl, ok := condRel(g.If.Cond, g.Taken)
+				if !ok {
+					continue
+				}
+				if (sameVal(rl.a, bo.X) && sameVal(rl.b, bo.Y) && (rl.op == token.GEQ || rl.op == token.GTR)) || (sameVal(rl.a, bo.Y) && sameVal(rl.b, bo.X) && (rl.op == token.LEQ || rl.op == token.LSS)) {
+					okG = true
+				}
+			}
+			r.Check(okG, "O3b", fname(f)+":unsigned-sub", c.pos(bo), "unsigned subtraction of wire values guarded against wrap-around", "unsigned subtraction on wire-derived values without a guard excluding wrap-around")
+		})
+	}
+}
+
+// ---------- O4 ----------
+
+func (x *c03) recursion() {
+	c, r := x.c, x.c.R
+	_, implMethods := c.datatypeImplementors()
+	// edges
+	succ := map[*ssa.Function][]*ssa.Function{}
+	for f := range x.scope {
+		for _, ci := range flow.CallInstrs(f) {
+			if g := flow.StaticCallee(ci); g != nil && x.scope[g] {
+				succ[f] = append(succ[f], g)
+			} else if ci.Common().IsInvoke() && flow.TypeIs(ci.Common().Value.Type(), pkgDatatype, "Type") {
+				for _, m := range implMethods {
+					if m.Name() == ci.Common().Method.Name() && x.scope[m] {
+						succ[f] = append(succ[f], m)
+					}
+				}
+			}
+		}
+	}
+	// Tarjan SCC
+	index := 0
+	idx := map[*ssa.Function]int{}
+	low := map[*ssa.Function]int{}
+	on := map[*ssa.Function]bool{}
+	var stack []*ssa.Function
+	var sccs [][]*ssa.Function
+	var strong func(v *ssa.Function)
+	strong = func(v *ssa.Function) {
+		index++
+		idx[v], low[v] = index, index
+		stack = append(stack, v)
+		on[v] = true
+		for _, w := range succ[v] {
+			if idx[w] == 0 {
+				strong(w)
+				if low[w] < low[v] {
+					low[v] = low[w]
+				}
+			} else if on[w] && idx[w] < low[v] {
+				low[v] = idx[w]
+			}
+		}
+		if low[v] == idx[v] {
+			var comp []*ssa.Function
+			for {
+				w := stack[len(stack)-1]
+				stack = stack[:len(stack)-1]
+				on[w] = false
+				comp = append(comp, w)
+				if w == v {
+					break
+				}
+			}
+			selfLoop := false
+			for _, w := range succ[v] {
+				if w == v {
+					selfLoop = true
+				}
+			}
+			if len(comp) > 1 || selfLoop {
+				sccs = append(sccs, comp)
+			}
+		}
+	}
+	var fs []*ssa.Function
+	for f := range x.scope {
+		fs = append(fs, f)
+	}
+	sort.Slice(fs, func(i, j int) bool { return fname(fs[i]) < fname(fs[j]) })
+	for _, f := range fs {
+		if idx[f] == 0 {
+			strong(f)
+		}
+	}
+	for _, comp := range sccs {
+		sort.Slice(comp, func(i, j int) bool { return fname(comp[i]) < fname(comp[j]) })
+		var names []string
+		inDecode := false
+		set := map[*ssa.Function]bool{}
+		for _, f := range comp {
+			names = append(names, f.Name())
+			set[f] = true
+			if x.decode[f] {
+				inDecode = true
+			}
+		}
+		key := "cycle{" + strings.Join(names, ",") + "}"
+		if inDecode {
+			how, why := x.depthBounded(comp, set)
+			if how != "" {
+				r.Ok("O4", key, c.fpos(comp[0]), how)
+			} else {
+				r.Fail("O4", key, c.fpos(comp[0]), "recursion on wire data without a depth bound: "+why+" — a 16 MiB message nests ~2 million grouped AVPs and the decoder dies with an unrecoverable stack overflow")
+			}
+			continue
+		}
+		// inspection: structural recursion into children
+		if x.structural(comp, set) {
+			r.Ok("O4", key, c.fpos(comp[0]), "structural recursion: every recursive call descends into the AVP children of the current element (depth ≤ decoded depth, which the decoder bounds)")
+		} else {
+			r.Fail("O4", key, c.fpos(comp[0]), "recursive inspection function whose recursive call does not descend into a child of the current AVP")
+		}
+	}
+	if len(sccs) == 0 {
+		r.Note("no recursion in scope")
+	}
+}
+
+// depthBounded: some function of the cycle has an int parameter d such that (1) a guard d > K / d >= K
+// returns an error, (2) every call that stays in the cycle passes a value derived from d increased or equal
+// along the cycle, with at least one +const step.
+func (x *c03) depthBounded(comp []*ssa.Function, set map[*ssa.Function]bool) (string, string) {
+	// find depth parameters: per function, an int parameter passed along to cycle calls
+	depthParam := map[*ssa.Function]*ssa.Parameter{}
+	for _, f := range comp {
+		for _, p := range f.Params {
+			if b, ok := p.Type().Underlying().(*types.Basic); ok && b.Kind() == types.Int {
+				depthParam[f] = p // last int param
+			}
+		}
+	}
+	guarded := ""
+	for _, f := range comp {
+		p := depthParam[f]
+		if p == nil {
+			return "", "function " + f.Name() + " of the cycle has no integer depth parameter"
+		}
+		for _, b := range f.Blocks {
+			ifi, ok := b.Instrs[len(b.Instrs)-1].(*ssa.If)
+			if !ok {
+				continue
+			}
+			rl, ok := condRel(ifi.Cond, true)
+			if !ok || rl.a != ssa.Value(p) {
+				continue
+			}
+			if _, isK := flow.ConstInt(rl.b); isK && (rl.op == token.GTR || rl.op == token.GEQ) && returnsNonNilError(b.Succs[0]) {
+				// the guard must dominate every cycle call of f
+				okDom := true
+				for _, ci := range flow.CallInstrs(f) {
+					if g := flow.StaticCallee(ci); g != nil && set[g] && !flow.Dominates(ifi, ci) {
+						okDom = false
+					}
+				}
+				if okDom {
+					k, _ := flow.ConstInt(rl.b)
+					guarded = fmt.Sprintf("%s rejects depth %s %d with an error before recursing", f.Name(), rl.op, k)
+				}
+			}
+		}
+	}
+	if guarded == "" {
+		return "", "no function of the cycle compares its depth parameter with a constant and returns an error"
+	}
+	// every cycle call passes depth or depth+const (>=0); at least one strictly increasing step
+	inc := false
+	for _, f := range comp {
+		p := depthParam[f]
+		for _, ci := range flow.CallInstrs(f) {
+			g := flow.StaticCallee(ci)
+			if g == nil || !set[g] {
+				continue
+			}
+			gp := depthParam[g]
+			a := ci.Common().Args[paramIndex(g, gp)]
+			switch {
+			case a == ssa.Value(p):
+			default:
+				bo, ok := a.(*ssa.BinOp)
+				k, isK := int64(0), false
+				if ok && bo.Op == token.ADD && bo.X == ssa.Value(p) {
+					k, isK = flow.ConstInt(bo.Y)
+				}
+				if !ok || !isK || k < 0 {
+					return "", fmt.Sprintf("%s calls %s with a depth argument that is not its own depth (+ a non-negative constant)", f.Name(), g.Name())
+				}
+				if k > 0 {
+					inc = true
+				}
+			}
+		}
+	}
+	if !inc {
+		return "", "the depth value is never increased around the cycle"
+	}
+	return "depth parameter threaded through the cycle, increased at least once per round; " + guarded, ""
+}
+
+// structural: every call that stays in the cycle either descends (into the AVP children of the
+// current element, or into a sub-value of the reflect destination) or passes the current element
+// on unchanged — and the calls that do not descend form no cycle by themselves.
+func (x *c03) structural(comp []*ssa.Function, set map[*ssa.Function]bool) bool {
+	flat := map[*ssa.Function][]*ssa.Function{} // non-descending edges
+	for _, f := range comp {
+		for _, ci := range flow.CallInstrs(f) {
+			g := flow.StaticCallee(ci)
+			if g == nil || !set[g] {
+				continue // interface calls on a.Data: the callee's own cycle calls are examined
+			}
+			descends, same := false, true
+			for _, a := range ci.Common().Args {
+				switch {
+				case derivesFromChild(a, 0) || reflectDescends(a):
+					descends = true
+				default:
+					if _, isParam := flow.Peel(a).(*ssa.Parameter); isParam {
+						continue
+					}
+					if _, isConst := a.(*ssa.Const); isConst {
+						continue
+					}
+					if _, isBasic := a.Type().Underlying().(*types.Basic); isBasic {
+						continue // depth counters, prefixes
+					}
+					if spilledParam(a) != nil {
+						continue
+					}
+					same = false
+				}
+			}
+			if descends {
+				continue
+			}
+			if !same {
+				return false
+			}
+			flat[f] = append(flat[f], g)
+		}
+	}
+	// flat edges must be acyclic
+	state := map[*ssa.Function]int{}
+	var dfs func(f *ssa.Function) bool
+	dfs = func(f *ssa.Function) bool {
+		state[f] = 1
+		for _, g := range flat[f] {
+			if state[g] == 1 {
+				return false
+			}
+			if state[g] == 0 && !dfs(g) {
+				return false
+			}
+		}
+		state[f] = 2
+		return true
+	}
+	for _, f := range comp {
+		if state[f] == 0 && !dfs(f) {
+			return false
+		}
+	}
+	return true
+}
+
+// reflectDescends: a reflect.Value obtained from Elem/Index/Field/Indirect of another value
+// (one step down the finite structure of the destination type).
+func reflectDescends(v ssa.Value) bool {
+	call, ok := v.(*ssa.Call)
+	if !ok {
+		return false
+	}
+	o := flow.CalleeObj(call)
+	if o == nil || o.Pkg() == nil || o.Pkg().Path() != "reflect" {
+		return false
+	}
+	switch o.Name() {
+	case "Elem", "Index", "Field", "Indirect":
+		return true
+	}
+	return false
+}
+
+func derivesFromChild(v ssa.Value, d int) bool {
+	if d > 6 {
+		return false
+	}
+	switch y := v.(type) {
+	case *ssa.UnOp:
+		if y.Op == token.MUL {
+			if _, fld, _, ok := flow.FieldOf(y); ok && (fld == "AVP" || fld == "Data") {
+				return true
+			}
+			if ia, ok := y.X.(*ssa.IndexAddr); ok {
+				return derivesFromChild(ia.X, d+1)
+			}
+			if fa, ok := y.X.(*ssa.FieldAddr); ok {
+				return derivesFromChild(fa.X, d+1)
+			}
+		}
+	case *ssa.TypeAssert:
+		return derivesFromChild(y.X, d+1)
+	case *ssa.Extract:
+		return derivesFromChild(y.Tuple, d+1)
+	case *ssa.Next:
+		return true // range over children
+	case *ssa.Phi:
+		for _, e := range y.Edges {
+			if derivesFromChild(e, d+1) {
+				return true
+			}
+		}
+	case *ssa.Slice:
+		return derivesFromChild(y.X, d+1)
+	case *ssa.MakeInterface:
+		return derivesFromChild(y.X, d+1)
+	case *ssa.Field:
+		return derivesFromChild(y.X, d+1)
+	}
+	return false
 }
